@@ -1303,10 +1303,11 @@ func ruleWireAgreement(c *Ctx) {
 // (a plain connection-info message has Knock == nil). Senders build them as
 // literals; receivers classify them with boolean conditions. The rule
 // evaluates every such condition on the literals the other side sends:
-//   Run's "this is a knock request" test: true for the request literal, false
-//     for the ack literal and for a plain message;
-//   listenForKnocks' rejection test: false for the request, true for the ack;
-//   knock's rejection test: false for the ack, true for the request.
+//
+//	Run's "this is a knock request" test: true for the request literal, false
+//	  for the ack literal and for a plain message;
+//	listenForKnocks' rejection test: false for the request, true for the ack;
+//	knock's rejection test: false for the ack, true for the request.
 func ruleKnockTable(c *Ctx) {
 	p := c.P
 	type lit struct{ knock, ack bool }
